@@ -118,9 +118,6 @@ the bins, hence the upper-bound placements) extend beyond the rows (`negative_ma
 conditions are regenerated from `src/parameters.cpp` on every run (`Gen/Params.lean`); removing the bound again breaks
 `accepted_side_margin_in_range`. -/
 
-/-- conversion of an in-range `float` to `int`: truncation towards zero -/
-def truncRat (q : Rat) : Int := Int.tdiv q.num q.den
-
 /-- `int margin = sideMargin * minCellHeight;` in `DensityGrid::fromIspdCircuit`: the `double` parameter is converted to
 `float` at the call, the `int` height to `float` for the product, the product is rounded and truncated.  `rnd` is any
 rounding that maps non-negative values to non-negative values (every IEEE rounding mode does). -/
@@ -192,6 +189,38 @@ theorem bins_inside_rows_bbox_accepted_params (c : Circuit) (rnd : Rat → Rat) 
 /-- non-vacuity: the rough-legalization parameters of every effort 1..9 (the translated default table) pass the check,
 so `accepted_*` speak about them. -/
 example : ∀ e ∈ Gen.Params.defaults, e.2.global.roughLegalization.check = true := by decide +kernel
+
+theorem minCellHeight_pos (heights : List Int) : 0 < minCellHeight heights := by
+  unfold minCellHeight
+  have key : ∀ (l : List Int) (m : Int), 0 < m → 0 < l.foldl (fun m h => if h > 0 then min h m else m) m := by
+    intro l
+    induction l with
+    | nil => intro m hm; simpa
+    | cons a r ih =>
+      intro m hm
+      simp only [List.foldl_cons]
+      apply ih
+      split
+      · rename_i ha; exact Int.lt_min.mpr ⟨ha, hm⟩
+      · exact hm
+  exact key heights intMax (by unfold intMax; decide)
+
+/-- The same about the function the driver EXECUTES against `DensityGrid::fromIspdCircuit` (`gridFromRows`: margin and bin
+size computed from the side margin, the size factor and the cell heights as the code does, over exact products): for every
+accepted `RoughLegalizationParameters`, every circuit with rows, every list of cell heights and every size factor, all
+bin limits lie inside the bounding box of the rows. -/
+theorem grid_of_accepted_params_inside_rows (c : Circuit) (p : Gen.Params.RoughLegalizationParameters)
+    (h : p.check = true) (heights : List Int) (sizeFactor : Rat) (hne : c.rows ≠ [])
+    (hwf : ∀ r ∈ c.rows, Rect.Within ⟨intMin, intMax, intMin, intMax⟩ r.rect) :
+    (∀ l ∈ (gridFromRows (c.computeRows.map (·.rect)) (c.rows.map (·.rect)) heights sizeFactor p.sideMargin).limX,
+      (computePlacementArea (c.rows.map (·.rect))).minX ≤ l ∧ l ≤ (computePlacementArea (c.rows.map (·.rect))).maxX) ∧
+    (∀ l ∈ (gridFromRows (c.computeRows.map (·.rect)) (c.rows.map (·.rect)) heights sizeFactor p.sideMargin).limY,
+      (computePlacementArea (c.rows.map (·.rect))).minY ≤ l ∧ l ≤ (computePlacementArea (c.rows.map (·.rect))).maxY) := by
+  unfold gridFromRows
+  refine bins_inside_rows_bbox c _ _ ?_ hne hwf
+  apply truncRat_nonneg
+  apply Rat.mul_nonneg (accepted_side_margin_in_range p h).1
+  exact_mod_cast Int.le_of_lt (minCellHeight_pos heights)
 
 /-- Witness of the defect repaired by fix 07db192 (kernel-evaluated on the model the driver executes): with margin −3
 — `sideMargin = -3`, accepted before the fix, on cells of height 1 — the grid built over the single row `[0,20]×[0,4]`
